@@ -213,7 +213,7 @@ def main(argv):
     ]
     c.grep_gate()
     quick = c.tier == "quick"
-    n_wrap = 1500 if quick else 20000
+    n_wrap = 800 if quick else 12000
     n_daisy = 60 if quick else 500
     n_live = 10 if quick else 60
     wrapper_cases = gen_wrapper_cases(c.rng, n_wrap)
@@ -489,7 +489,7 @@ Print f_corr_bad. Print w_corr_bad. Print d_corr_bad. Print l_corr_bad. Print ga
                 corr_res[nm] = grab(cout2, nm) or []
             m = re.search(r"gaps\s*=\s*\[(.*?)\]\s*:\s*list", cout2, flags=re.S)
             if m:
-                for g in re.findall(r"\((\d+),\s*(\d+),\s*(true|false),\s*(None|Some \w+)\)", m.group(1)):
+                for g in re.findall(r"\((\d+)(?:%nat)?,\s*(\d+)(?:%nat)?,\s*(true|false),\s*(None|Some \w+)\)", m.group(1)):
                     gaps.append({"requests": int(g[0]), "steps": int(g[1]), "subscribed": g[2] == "true", "registered": g[3]})
         else:
             c.fail_obligation("correspondence-eval", cout2[-1500:])
@@ -536,7 +536,7 @@ Print f_corr_bad. Print w_corr_bad. Print d_corr_bad. Print l_corr_bad. Print ga
     # a no-validator window in the extracted call sequence: replay it on the real pubsub registry
     gap_replayed = None
     if gaps and not c.replay:
-        g = gaps[0]
+        g = ([x for x in gaps if x["requests"] >= 1] or gaps)[0]
         ops = []
         if g["requests"] >= 1:
             ops.append(["S", [2] * 8])
